@@ -60,7 +60,12 @@ func (l *InterceptingListener) getTlsConfigForClient(clientInfo *ClientInfo) fun
 
 		serverCertsReq := new(types.GenerateServerCertificatesRequest)
 		var protoToReturn string
-		opt := l.options
+		// Each connection gets its own copy of the options: the values appended
+		// below (and by the functions these are passed to) must never land in
+		// the backing array of the slice the listener was configured with, which
+		// is shared by every concurrent handshake
+		opt := make([]nodeenrollment.Option, len(l.options), len(l.options)+4)
+		copy(opt, l.options)
 
 		for _, p := range trimmedProtos {
 			switch {
@@ -85,7 +90,7 @@ func (l *InterceptingListener) getTlsConfigForClient(clientInfo *ClientInfo) fun
 				}
 				// This will return a response either with Authorized false and no
 				// other data or Authorized true and encrypted values
-				fetchResp, err := l.fetchCredsFn(l.ctx, l.storage, req, l.options...)
+				fetchResp, err := l.fetchCredsFn(l.ctx, l.storage, req, append([]nodeenrollment.Option(nil), l.options...)...)
 				if err != nil {
 					return nil, fmt.Errorf("(%s) error handling fetch creds: %w", op, err)
 				}
